@@ -34,6 +34,7 @@ type c08Case struct {
 	Layout   string
 	NIn      int
 	Explicit bool
+	Nested   bool // btc-lnd: the last funding input is nested segwit (P2SH-P2WKH)
 	Amount   uint64
 	Premium  int64
 	Version  uint8
@@ -41,7 +42,7 @@ type c08Case struct {
 }
 
 func (c c08Case) String() string {
-	return fmt.Sprintf("backend=%s role=%s funding=%s/in%d explicit=%v amount=%d premium=%d protocol_version=%d", c.Backend, c.Role, c.Layout, c.NIn, c.Explicit, c.Amount, c.Premium, c.Version)
+	return fmt.Sprintf("backend=%s role=%s funding=%s/in%d explicit=%v nested_input=%v amount=%d premium=%d protocol_version=%d", c.Backend, c.Role, c.Layout, c.NIn, c.Explicit, c.Nested, c.Amount, c.Premium, c.Version)
 }
 
 func (c c08Case) chain() string {
@@ -70,7 +71,7 @@ func c08Run(acc *c03Acc, c c08Case) {
 	switch c.Backend {
 	case "btc-lnd":
 		rig = newC03LndRig(seed)
-		rig.wk.fund = c03Fund{Layout: c.Layout, NIn: c.NIn}
+		rig.wk.fund = c03Fund{Layout: c.Layout, NIn: c.NIn, Nested: c.Nested}
 		services = swap.NewSwapServices(nil, nil, ln, nil, nil, nil, true, rig.client, rig.chain, watcher, false, nil, nil, nil, nil)
 	case "lbtc-wallet":
 		lw = &c03LqWallet{tag: seed, fund: c03LqFund{Layout: c.Layout, NIn: c.NIn, Explicit: c.Explicit}, feeMode: "100"}
@@ -310,6 +311,7 @@ func c08Cases(tier string) ([]c08Case, map[string]any) {
 					for _, r := range roles {
 						for _, v := range []uint8{6, 7} {
 							add(c08Case{Backend: "btc-lnd", Role: r, Layout: l, NIn: nIn, Amount: a, Premium: p, Version: v})
+							add(c08Case{Backend: "btc-lnd", Role: r, Layout: l, NIn: nIn, Nested: true, Amount: a, Premium: p, Version: v})
 						}
 					}
 				}
@@ -348,7 +350,7 @@ func c08Cases(tier string) ([]c08Case, map[string]any) {
 		blocks = []string{"8 layouts x 3 amounts x 3 premiums x 2 roles (1 input, version 7)", "layouts SCF,CSF x inputs 1..3 x 3 amounts x 2 roles (premium 0)", "CSF x premium -7,+7 x 2 roles x version 6 (1000 sat, 2 inputs)", "explicit swap output: CSF x 2 roles"}
 	}
 	return cases, map[string]any{
-		"btc(full product)": map[string]any{"layouts(S=swap,C=change,E=wallet output with value==opening amount)": c03BtcLayouts, "inputs": []int{1, 2, 3}, "amounts": c03Amounts, "premiums": premiums, "roles": roles, "protocol_versions": []int{6, 7}},
+		"btc(full product)": map[string]any{"layouts(S=swap,C=change,E=wallet output with value==opening amount)": c03BtcLayouts, "inputs": []int{1, 2, 3}, "last_input_kind": []string{"native segwit (P2WKH)", "nested segwit (P2SH-P2WKH: the signed transaction has a scriptSig, so its id differs from the unsigned one)"}, "amounts": c03Amounts, "premiums": premiums, "roles": roles, "protocol_versions": []int{6, 7}},
 		"lbtc(each block a full product, for both back-ends)": blocks, "lbtc_layouts(S=swap,C=change,F=fee)": lqLayouts, "lbtc_backends": []string{"LiquidOnChain over fake wallet.Wallet", "LiquidOnChain over real ElementsRpcWallet over fake elementsd"},
 	}
 }
